@@ -343,10 +343,12 @@ type world struct {
 	ctx        context.Context
 	cancelF    context.CancelFunc
 	cancelled  bool
-	cancelFlag atomic.Bool // same as cancelled, readable by actors
-	runaway    atomic.Bool // the user function was called more than callBudget times (the caller is parked)
-	limitDrain atomic.Bool // cancel-drain end game: drains take at most postCancelBudget values after cancel
-	cancelSeq  int64       // sequence number taken just before cancel() was called
+	cancelFlag atomic.Bool  // same as cancelled, readable by actors
+	decoUsed   atomic.Bool  // the case's morphism is wrapped in a counting decorator
+	decoCalls  atomic.Int64 // calls of the decorator's Apply
+	runaway    atomic.Bool  // the user function was called more than callBudget times (the caller is parked)
+	limitDrain atomic.Bool  // cancel-drain end game: drains take at most postCancelBudget values after cancel
+	cancelSeq  int64        // sequence number taken just before cancel() was called
 	cancelAt   int64
 	start      time.Time
 	stop       chan struct{}
